@@ -16,7 +16,7 @@ from typing import List, Tuple
 
 from ..astutil import dotted, norm
 from ..core import Ctx, PropSpec, Unsupported
-from ..extract import fn_stmts, stmt_site, where
+from ..extract import fn_stmts, resolve_local, stmt_site, where
 from ..interp import BytesObj, Obj, Raised
 from ..models import make_interp, raw_packet
 
@@ -312,7 +312,7 @@ def check(ctx: Ctx) -> None:
     mods = []
     for n in ast.walk(fi.node):
         if isinstance(n, ast.BinOp) and isinstance(n.op, ast.Mod):
-            k = prog.fold_opt(n.right, DEF)
+            k = prog.fold_opt(resolve_local(fi, n.right), DEF)
             if isinstance(k, int) and "sequence_count" in norm(_enclosing_stmt(fi, n)) or \
                     (isinstance(k, int) and k in (16383, 16384, 16385, 8192, 32768)):
                 mods.append((k, n))
@@ -406,6 +406,7 @@ SPEC = PropSpec(
     check=check,
     sweep=sweep,
     floors={"R12.1": 150, "R12.off": 1, "R12.4": 1, "R12.gen": 1, "R12.state": 1},
+    fallback={"R12.4": ("R12.1",)},
     explanation=("Decision table of the segment-combining state machine, obtained by abstract interpretation of the "
                  "source of XtcePacketDefinition.packet_generator (framer and parser stubbed, model packets built by "
                  "the checker's own CCSDS packer): designed histories reach every abstract table state "
